@@ -96,7 +96,18 @@ def _gen_seeded():
                 mt = json.load(open(mp))
                 rows.append("| `%s` | %s | %s | %s | %s |" % (d, mt.get("property"), mt.get("change", "").replace("|", "/"), mt.get("needs", "").replace("|", "/"), (mt.get("verdict", "")[:260] + ((" — " + mt["history"]) if mt.get("history") else "")).replace("|", "/")))
     head = "| seeded/ | property | change | needs, to manifest | `./check` on the changed tree |\n|---|---|---|---|---|\n"
-    return head + "\n".join(rows) + "\n"
+    metas = [json.load(open(os.path.join(sd, d, "meta.json"))) for d in sorted(os.listdir(sd)) if os.path.exists(os.path.join(sd, d, "meta.json"))] if os.path.isdir(sd) else []
+    n = len(metas)
+    caught = sum(1 for m_ in metas if m_.get("verdict", "").startswith("CAUGHT"))
+    missed = sum(1 for m_ in metas if m_.get("verdict", "").startswith("MISSED"))
+    undec = sum(1 for m_ in metas if m_.get("verdict", "").startswith("undecided"))
+    first_ok = sum(1 for m_ in metas if m_.get("verdict", "").startswith("CAUGHT") and not m_.get("history"))
+    summ = ("**Summary:** %d seeded changes; on the machinery as committed: %d caught (exit 1, named obligation), %d missed (exit 0), "
+            "%d undecided (exit 2). At first contact only %d of the %d were caught: the others were missed or undecided because the "
+            "function they touch was not under contract yet or the unit's environment was too narrow to type the changed code; "
+            "each such case led to the extension recorded in its row (no check was loosened, no property text was read by the "
+            "seeding agents beyond its own).\n\n" % (n, caught, missed, undec, first_ok, n))
+    return summ + head + "\n".join(rows) + "\n"
 
 
 def _splice(text, name, body):
